@@ -26,6 +26,8 @@ Definition f_gt (a b : spec_float) : bool := SFltb b a.          (* a > b  *)
 Definition f_eq (a b : spec_float) : bool := SFeqb a b.          (* a == b *)
 Definition f_is_nan (a : spec_float) : bool := match a with S754_nan => true | _ => false end.
 
+Definition f64_one : spec_float := S754_finite false 4503599627370496 (-52).
+
 (* `n as f64` for an integer n: round to nearest, ties to even *)
 Definition f64_of_Z (z : Z) : spec_float := binary_normalize 53 1024 z 0 false.
 
@@ -53,6 +55,48 @@ Definition f_floor (x : spec_float) : spec_float :=
         end
   | _ => x
   end.
+
+(* f64::trunc *)
+Definition f_trunc (x : spec_float) : spec_float :=
+  match x with
+  | S754_finite s m e =>
+      if 0 <=? e then x
+      else match Z.shiftr (Zpos m) (- e) with
+           | Zpos p => norm_int s p
+           | _ => S754_zero s
+           end
+  | _ => x
+  end.
+
+Definition f_abs := SFabs.
+
+(* `x % y` on f64 (C fmod): x - trunc(x/y)*y computed exactly; the sign of the result (also of a
+   zero result) is the sign of x *)
+Definition f_fmod (x y : spec_float) : spec_float :=
+  match x, y with
+  | S754_nan, _ | _, S754_nan => S754_nan
+  | S754_infinity _, _ => S754_nan
+  | _, S754_zero _ => S754_nan
+  | _, S754_infinity _ => x
+  | S754_zero _, _ => x
+  | S754_finite sx mx ex, S754_finite _ my ey =>
+      let k := Z.min ex ey in
+      let r := (Zpos mx * 2 ^ (ex - k)) mod (Zpos my * 2 ^ (ey - k)) in
+      match r with
+      | Z0 => S754_zero sx
+      | _ => binary_normalize 53 1024 (if sx then - r else r) k false
+      end
+  end.
+
+(* f64::rem_euclid and f64::div_euclid as std writes them *)
+Definition f_rem_euclid (x y : spec_float) : spec_float :=
+  let r := f_fmod x y in
+  if f_lt r (S754_zero false) then f_add r (f_abs y) else r.
+Definition f_div_euclid (x y : spec_float) : spec_float :=
+  let q := f_trunc (f_div x y) in
+  if f_lt (f_fmod x y) (S754_zero false)
+  then (if f_gt y (S754_zero false) then f_sub q f64_one else f_add q f64_one)
+  else q.
 
 (* f64::trunc as an integer (None for NaN / infinities) *)
 Definition f_trunc_Z (x : spec_float) : option Z :=
@@ -134,7 +178,7 @@ Definition checked_rem_euclid (a b : Z) : option Z :=
 (* overflowing_rem_euclid(rhs).0 *)
 Definition wrapping_rem_euclid (a b : Z) : Z := if b =? -1 then 0 else rem_euclid a b.
 
-(* float results the model does not compute (powf, f64::rem_euclid, f64::div_euclid):
+(* float results the model does not compute (f64::powf):
    None = "not modelled"; the harness sends those cases to the no-panic oracle only *)
 Definition mres := option (res value).
 Definition m_ok (v : value) : mres := Some (ROk v).
@@ -172,7 +216,8 @@ Definition num_div (a b : value) : mres :=
 Definition num_floor_div (a b : value) : mres :=
   with_numbers a b (fun l r =>
     if num_is_zero r then m_err
-    else if num_is_float l || num_is_float r then m_unmodelled
+    else if num_is_float l || num_is_float r
+    then m_ok (VFloat (f_div_euclid (into_float l) (into_float r)))
     else match l, r with
          | NInt x, NInt y =>
              match checked_div_euclid x y with Some z => m_ok (value_of_int z) | None => m_err end
@@ -182,7 +227,8 @@ Definition num_floor_div (a b : value) : mres :=
 Definition num_rem_with (irem : Z -> Z -> option Z) (a b : value) : mres :=
   with_numbers a b (fun l r =>
     if num_is_zero r then m_err
-    else if num_is_float l || num_is_float r then m_unmodelled
+    else if num_is_float l || num_is_float r
+    then m_ok (VFloat (f_rem_euclid (into_float l) (into_float r)))
     else match l, r with
          | NInt x, NInt y =>
              match irem x y with Some z => m_ok (value_of_int z) | None => m_err end
